@@ -115,7 +115,9 @@ func VerifyRedeem(ctx interface{}) error {
 	if context.Witnesses.IsETHWitness() {
 		bjob, err := context.JobStore.GetJob(tracker.GetJobID(ethereum.BusyBroadcasting))
 		if err != nil {
-			return errors.Wrap(err, "failed to get job")
+			// node-local job store: a missing job must not change the replicated tracker state
+			context.Logger.Error("failed to get broadcast job, no verify job created", err)
+			return nil
 		}
 		if bjob.IsDone() && !bjob.IsFailed() {
 			job := NewETHVerifyRedeem(tracker.TrackerName, ethereum.BusyFinalizing)
@@ -141,7 +143,9 @@ func RedeemConfirmed(ctx interface{}) error {
 		if tracker.State == ethereum.BusyFinalizing {
 			bjob, err := context.JobStore.GetJob(tracker.GetJobID(ethereum.BusyBroadcasting))
 			if err != nil {
-				return errors.Wrap(err, "failed to get job")
+				// node-local job store: a missing job must not change the replicated tracker state
+				context.Logger.Error("failed to get broadcast job, no verify job created", err)
+				return nil
 			}
 			if bjob.IsDone() && !bjob.IsFailed() {
 				job := NewETHVerifyRedeem(tracker.TrackerName, ethereum.BusyFinalizing)
